@@ -359,4 +359,112 @@ theorem stepT_inv (wf : WF d filt rank) (hN : ∀ r, rank r < N) {cfg : Cfg} (hg
 
 end Step
 
+/-! ## Global invariants over reachable states -/
+
+/-- every thread's guard is the list of its own unfinished loads -/
+def AllChainOK (s : State V E) : Prop := ∀ (i : Nat) (t : Thread V E), s.threads[i]? = some t → ChainOK t
+
+theorem init_allChainOK (slots : List (Nat × Slot V E)) (stm : List (Nat × Res V E)) (css : List (List (Prog V E))) :
+    AllChainOK (State.init slots stm css) := by
+  intro i t ht
+  simp only [State.init, List.getElem?_map, Option.map_eq_some_iff] at ht
+  obtain ⟨cs, _, rfl⟩ := ht
+  exact ⟨rfl, rfl⟩
+
+theorem step_allChainOK {d : Doc V E} {cfg : Cfg} (hg : cfg.sharedGuard = false) {s s' : State V E} {i : Nat}
+    (h : AllChainOK s) (hs : step d cfg s i = some s') : AllChainOK s' := by
+  unfold step at hs
+  cases hti : s.threads[i]? with
+  | none => simp [hti] at hs
+  | some t =>
+    simp only [hti] at hs
+    cases hst : stepT d cfg i s.sh t with
+    | none => simp [hst] at hs
+    | some p =>
+      obtain ⟨sh', t'⟩ := p
+      simp only [hst, Option.some.injEq] at hs
+      subst hs
+      intro j u hu
+      simp only [List.getElem?_set] at hu
+      split at hu
+      · split at hu
+        · simp only [Option.some.injEq] at hu
+          subst hu
+          exact stepT_chainOK hg (h i t hti) hst
+        · simp at hu
+      · exact h j u hu
+
+theorem reachable_allChainOK {d : Doc V E} {cfg : Cfg} (hg : cfg.sharedGuard = false) {s0 s : State V E}
+    (h0 : AllChainOK s0) (hr : Reachable d cfg s0 s) : AllChainOK s := by
+  induction hr with
+  | init => exact h0
+  | step i _ hs ih => exact step_allChainOK hg ih hs
+
+/-- the invariant behind `results_sequential` -/
+def GInv (d : Doc V E) (filt : Nat → List Nat) (rank : Nat → Nat) (N : Nat) (css : List (List (Prog V E)))
+    (s : State V E) : Prop :=
+  SInv d filt (ans d rank) s.sh ∧ s.threads.length = css.length ∧
+    ∀ (i : Nat) (t : Thread V E) (cs : List (Prog V E)), s.threads[i]? = some t → css[i]? = some cs →
+      ChainOK t ∧ TInv d filt rank N (ans d rank) cs t
+
+theorem init_GInv {d : Doc V E} {filt : Nat → List Nat} {rank : Nat → Nat} {N : Nat}
+    (slots : List (Nat × Slot V E)) (stm : List (Nat × Res V E)) (css : List (List (Prog V E)))
+    (hsh : SInv d filt (ans d rank) ⟨slots, stm, [], false⟩) : GInv d filt rank N css (State.init slots stm css) := by
+  refine ⟨hsh, by simp [State.init], ?_⟩
+  intro i t cs ht hcs
+  simp only [State.init, List.getElem?_map, Option.map_eq_some_iff] at ht
+  obtain ⟨cs', hcs', rfl⟩ := ht
+  rw [hcs] at hcs'
+  simp only [Option.some.injEq] at hcs'
+  subst hcs'
+  refine ⟨⟨rfl, rfl⟩, [], rfl, ?_⟩
+  simp [Thread.init, resid, Ctl.isFinal]
+
+theorem step_GInv {d : Doc V E} {filt : Nat → List Nat} {rank : Nat → Nat} {N : Nat} (wf : WF d filt rank)
+    (hN : ∀ r, rank r < N) {cfg : Cfg} (hg : cfg.sharedGuard = false) {css : List (List (Prog V E))}
+    (hcalls : ∀ cs ∈ css, ∀ p ∈ cs, Fine filt (fun r' => rank r' < N) p)
+    {s s' : State V E} {i : Nat} (h : GInv d filt rank N css s) (hs : step d cfg s i = some s') :
+    GInv d filt rank N css s' := by
+  obtain ⟨hsh, hlen, hth⟩ := h
+  unfold step at hs
+  cases hti : s.threads[i]? with
+  | none => simp [hti] at hs
+  | some t =>
+    simp only [hti] at hs
+    cases hst : stepT d cfg i s.sh t with
+    | none => simp [hst] at hs
+    | some p =>
+      obtain ⟨sh', t'⟩ := p
+      simp only [hst, Option.some.injEq] at hs
+      subst hs
+      have hi : i < css.length := by
+        rw [← hlen]
+        exact (List.getElem?_eq_some_iff.mp hti).1
+      have hcsi : css[i]? = some css[i] := List.getElem?_eq_getElem hi
+      have hold := hth i t css[i] hti hcsi
+      have hnew := stepT_inv wf hN hg (hcalls css[i] (List.getElem_mem hi)) hold.1 hold.2 hsh hst
+      refine ⟨hnew.2, by simp [hlen], ?_⟩
+      intro j u cs hu hcs
+      simp only [List.getElem?_set] at hu
+      split at hu
+      · rename_i e
+        subst e
+        split at hu
+        · simp only [Option.some.injEq] at hu
+          subst hu
+          rw [hcsi] at hcs
+          simp only [Option.some.injEq] at hcs
+          subst hcs
+          exact ⟨stepT_chainOK hg hold.1 hst, hnew.1⟩
+        · simp at hu
+      · exact hth j u cs hu hcs
+
+theorem reachable_GInv {d : Doc V E} {filt : Nat → List Nat} {rank : Nat → Nat} {N : Nat} (wf : WF d filt rank)
+    (hN : ∀ r, rank r < N) {cfg : Cfg} (hg : cfg.sharedGuard = false) {css : List (List (Prog V E))}
+    (hcalls : ∀ cs ∈ css, ∀ p ∈ cs, Fine filt (fun r' => rank r' < N) p)
+    {s0 s : State V E} (h0 : GInv d filt rank N css s0) (hr : Reachable d cfg s0 s) : GInv d filt rank N css s := by
+  induction hr with
+  | init => exact h0
+  | step i _ hs ih => exact step_GInv wf hN hg hcalls ih hs
+
 end Conc
